@@ -67,39 +67,7 @@ void h_flush(void)
  "native": false
 }
 */
-#define IDX_OK(c) ((c) >= data->cache && (c) < data->cache + CACHE_SIZE)
-#define NOT_THIS(i) (!(E(i).in_use && E(i).block == block))
-#define UNUSED_OR_OLDER(i, c) (!E(i).in_use || (c)->access_time <= E(i).access_time)
-
-/* hit: the entry labelled `block`; miss: NULL and *eldest = an unused entry if there is one, else the LRU one */
-static struct unix_cache *find_cached_block(struct unix_private_data *data, unsigned long long block,
-					    struct unix_cache **eldest)
-	REQUIRES(eldest == 0 || __CPROVER_w_ok(eldest, sizeof(*eldest)))
-	REQUIRES(data->access_time >= 0 && data->access_time < 0x7fffff00)
-	ENSURES(RET == 0 || (IDX_OK(RET) && RET->in_use && RET->block == block))
-	ENSURES(RET != 0 || (NOT_THIS(0) && NOT_THIS(1) && NOT_THIS(2) && NOT_THIS(3) && NOT_THIS(4) && NOT_THIS(5) && NOT_THIS(6) && NOT_THIS(7)))
-	ENSURES(RET != 0 || eldest == 0 || (IDX_OK(*eldest) &&
-		(!(*eldest)->in_use || (any_inuse(data) && !(!E(0).in_use || !E(1).in_use || !E(2).in_use || !E(3).in_use || !E(4).in_use || !E(5).in_use || !E(6).in_use || !E(7).in_use) &&
-		 UNUSED_OR_OLDER(0, *eldest) && UNUSED_OR_OLDER(1, *eldest) && UNUSED_OR_OLDER(2, *eldest) && UNUSED_OR_OLDER(3, *eldest) &&
-		 UNUSED_OR_OLDER(4, *eldest) && UNUSED_OR_OLDER(5, *eldest) && UNUSED_OR_OLDER(6, *eldest) && UNUSED_OR_OLDER(7, *eldest)))))
-	ENSURES(coherent(data))
-	ASSIGNS(__CPROVER_object_whole(data), *eldest);
-
-static errcode_t reuse_cache(io_channel channel, struct unix_private_data *data, struct unix_cache *cache,
-			     unsigned long long block)
-	REQUIRES(data->access_time >= 0 && data->access_time < 0x7fffff00)
-	REQUIRES(IDX_OK(cache) && coherent(data) && NOT_THIS(0) && NOT_THIS(1) && NOT_THIS(2) && NOT_THIS(3) &&
-		 NOT_THIS(4) && NOT_THIS(5) && NOT_THIS(6) && NOT_THIS(7))
-	/* success: the entry is re-labelled and clean; a dirty victim reached the device under its OWN block number first */
-	ENSURES(RET != 0 || (cache->in_use && !cache->dirty && cache->block == block))
-	/* failure: nothing is re-labelled, the victim stays dirty */
-	ENSURES(RET == 0 || (cache->in_use && cache->dirty && cache->block == OLD(cache->block) && cache->write_err))
-	/* coherence at the ghost location, except that the re-labelled entry's buffer is still to be filled by the caller */
-	ENSURES(RET != 0 || block == g_bstar || coherent(data))
-	ENSURES(RET != 0 || block != g_bstar || g_disk == g_logical)
-	ENSURES(RET == 0 || coherent(data))
-	ENSURES(RET == 0 ? g_wfail == OLD(g_wfail) : g_wfail == 1)
-	ASSIGNS(__CPROVER_object_whole(data), g_disk, g_nwrites, g_wfail);
+/* the contracts of find_cached_block, reuse_cache and flush_cached_blocks are in cache_common.h (shared with the units that replace calls by them) */
 
 void h_find(void)
 {
@@ -132,5 +100,10 @@ void h_reuse(void)
 	CHECK(r != 0 || !(was_match && was_dirty) || g_disk == bufbyte, "a dirty victim is written to its own block before the entry is re-labelled");
 	CHECK(r != 0 || (c->in_use && !c->dirty && c->block == block), "re-labelled entry is clean and in use");
 	CHECK(r == 0 || (c->block == oldblk && c->dirty), "on a write error nothing is re-labelled");
+	/* what the logical-free contract gives a caller that starts from a coherent cache */
+	CHECK(r != 0 || block == g_bstar || coherent(data), "re-labelling for another block keeps coherence at L*");
+	CHECK(r != 0 || block != g_bstar || g_disk == g_logical, "re-labelling for L*'s block: the device holds the current byte, the caller fills the buffer");
+	CHECK(r == 0 || coherent(data), "a failed eviction keeps coherence");
+	CHECK((r != 0) == (g_wfail != 0), "a failed device write is reported");
 	REACH("end");
 }
